@@ -54,7 +54,7 @@ class C03(Prop):
                   "over exhaustive short histories, random long ones and scheduler-driven interleavings of two instances.")
     level_note = "trusts vf/ref/frames.py, the fake device's issue log, time_machine; cooperative scheduling only (asyncio has no preemption)"
     assumptions = ["interleavings exist only at await points; they are driven by holding replies, not by threads",
-                   "task cancellation in mid-exchange is outside the quantifier"]
+                   "an operation cancelled in mid-exchange is itself not judged; the operations after it (on a fresh connection of the same object) are"]
     anchors = ["aioswitcher.api:SwitcherApi._login", "aioswitcher.api:SwitcherType2Api.control_breeze_device",
                "aioswitcher.api:SwitcherType2Api._control_breeze_swing_device", "aioswitcher.api:SwitcherType2Api._get_breeze_state",
                "aioswitcher.device.tools:current_timestamp_to_hexadecimal"]
@@ -162,9 +162,55 @@ class C03(Prop):
                 clients.append(cl)
             records = [[] for _ in clients]
 
+            # in some single-instance histories the caller gives up on one operation in mid-exchange (task cancelled, wait_for /
+            # timeout expired while the device sits on reply k), reconnects and carries on: what follows is judged as usual
+            cancel_plan = None
+            if len(clients) == 1 and not case.get("exhaustive") and r.random() < 0.25 and len(case["clients"][0]["steps"]) >= 2:
+                cancel_plan = {"at": r.randrange(len(case["clients"][0]["steps"]) - 1), "frame": r.randrange(0, 3)}
+
+            async def cancelled_step(cl, st):
+                arrived, hold = asyncio.Event(), asyncio.Event()
+                base = len(cl.conn.frames)
+
+                async def gate(conn, idx, frame):
+                    if conn is cl.conn and idx - base == cancel_plan["frame"]:
+                        arrived.set()
+                        await hold.wait()
+
+                self.dev.gate = gate
+                task = asyncio.ensure_future(ops.call(cl.api, st["op"], st["args"], self.remotes[st["remote"]]))
+                for _ in range(2000):
+                    if arrived.is_set() or task.done():
+                        break
+                    await asyncio.sleep(0)
+                was_waiting = arrived.is_set() and not task.done()
+                task.cancel()
+                try:
+                    await task
+                except BaseException:
+                    pass
+                hold.set()
+                self.dev.gate = None
+                acc.count("operations_cancelled_while_waiting_for_a_reply" if was_waiting else "operations_finished_before_the_cancel")
+                # a fresh connection: the old stream may still receive the reply nobody waits for
+                await cl.close()
+                before = len(self.dev.conns)
+                await cl.api.connect()
+                for _ in range(300):
+                    if len(self.dev.conns) > before:
+                        break
+                    await asyncio.sleep(0)
+                cl.conn = self.dev.conns[-1]
+                cl.spy = td.WireSpy(cl.api, on_write)
+
             async def run_client(idx):
                 cl, c = clients[idx], case["clients"][idx]
-                for st in c["steps"]:
+                for sti, st in enumerate(c["steps"]):
+                    if cancel_plan is not None and sti == cancel_plan["at"]:
+                        family[cl.conn.id] = "shutter" if st["op"] == "get_shutter_state" else "thermostat"
+                        await cancelled_step(cl, st)
+                        cl.reset_at = len(records[idx])
+                        continue
                     family[cl.conn.id] = "shutter" if st["op"] == "get_shutter_state" else "thermostat"
                     n_sess = len(cl.conn.sessions)
                     t_start = time.time()
@@ -176,7 +222,7 @@ class C03(Prop):
 
             try:
                 if len(clients) == 1:
-                    if r.random() < 0.3:
+                    if cancel_plan is None and r.random() < 0.3:
                         async def slow_gate(conn, idx, frame):
                             if r.random() < 0.25:
                                 await self._slow_reply(acc)
@@ -259,7 +305,10 @@ class C03(Prop):
             did, kb = bytes.fromhex(c["id"]), bytes.fromhex(c["key"])
             login_kind = ops.LOGIN_KIND[c["type"]]
             stream = []
-            for st, rec, t_start, t_end, issued in recs:
+            reset_at = getattr(cl, "reset_at", 0)
+            for ri, (st, rec, t_start, t_end, issued) in enumerate(recs):
+                if ri == reset_at:
+                    stream = []      # a new connection began here (after a cancelled operation)
                 acc.ev()
                 acc.count(f"op_{st['kind']}")
                 op, tag = st["op"], f"{st['kind']} (instance {'AB'[idx]})"
